@@ -12,6 +12,7 @@ import (
 	"fmt"
 	"hash"
 	"io"
+	"net"
 	gofs "io/fs"
 	"os"
 	"os/exec"
@@ -27,6 +28,7 @@ import (
 	"github.com/pkg/errors"
 	"github.com/tonistiigi/fsutil"
 	"github.com/tonistiigi/fsutil/types"
+	"github.com/tonistiigi/fsutil/util"
 )
 
 func init() {
@@ -84,6 +86,21 @@ type c04End struct {
 	prevData   []byte
 	scribbled  int32
 	perturb    func() // schedule perturbation around every operation
+	// transport 1: the endpoint is util.NewProtoStream over one end of a net.Pipe
+	conn  net.Conn
+	inner fsutil.Stream
+	// "peer vanishes": after this endpoint's owner has consumed vanishAt packets its process is
+	// gone: its own operations fail, its context is cancelled, and the PEER sees a clean end of
+	// stream (io.EOF after what was already sent); the peer's later writes are dropped or fail
+	peer      *c04End
+	recvd     int64
+	vanishAt  int64 // -1: never
+	kill      func() // cancels the owner's context
+	gone      int32  // set on the surviving endpoint: the peer has vanished
+	dropAfter bool   // writes to a vanished peer are silently dropped (else they fail)
+	finSeen   int32  // a FIN packet was handed to this endpoint's owner
+	walkDone  chan struct{} // sender's endpoint: closed when the end-of-listing STAT has been sent
+	walkOnce  sync.Once
 }
 
 func c04NewPair(capSR, capRS int) *c04Pair {
@@ -91,12 +108,31 @@ func c04NewPair(capSR, capRS int) *c04Pair {
 	rs := make(chan []byte, capRS)
 	p := &c04Pair{down: make(chan struct{}), reqReached: make(chan struct{})}
 	p.ctx, p.cancelCtx = context.WithCancel(context.Background())
-	p.E[0] = &c04End{pair: p, idx: 0, send: sr, recv: rs, broken: make(chan struct{}), breakAt: -1}
-	p.E[1] = &c04End{pair: p, idx: 1, send: rs, recv: sr, broken: make(chan struct{}), breakAt: -1}
+	p.E[0] = &c04End{pair: p, idx: 0, send: sr, recv: rs, broken: make(chan struct{}), breakAt: -1, vanishAt: -1, walkDone: make(chan struct{})}
+	p.E[1] = &c04End{pair: p, idx: 1, send: rs, recv: sr, broken: make(chan struct{}), breakAt: -1, vanishAt: -1, walkDone: make(chan struct{})}
+	p.E[0].peer, p.E[1].peer = p.E[1], p.E[0]
 	return p
 }
 
-func (p *c04Pair) TearDown() { p.downOnce.Do(func() { close(p.down) }) }
+func (p *c04Pair) TearDown() {
+	p.downOnce.Do(func() {
+		close(p.down)
+		for _, e := range p.E {
+			if e.conn != nil {
+				e.conn.Close()
+			}
+		}
+	})
+}
+
+// usePipe switches the pair to transport 1: util.NewProtoStream (the framing of the cmd/ tools)
+// over a synchronous net.Pipe; closing one end is a clean end of stream for the other.
+func (p *c04Pair) usePipe() {
+	a, b := net.Pipe()
+	p.E[0].conn, p.E[1].conn = a, b
+	p.E[0].inner = util.NewProtoStream(p.ctx, a, a)
+	p.E[1].inner = util.NewProtoStream(p.ctx, b, b)
+}
 
 func (p *c04Pair) Log() []c04Pkt {
 	p.mu.Lock()
@@ -109,7 +145,59 @@ var _ fsutil.Stream = &c04End{}
 func (e *c04End) Context() context.Context { return e.pair.ctx }
 
 func (e *c04End) CloseSend() { e.closeOne() }
-func (e *c04End) closeOne()  { e.closeOnce.Do(func() { close(e.send) }) }
+func (e *c04End) closeOne() {
+	e.closeOnce.Do(func() {
+		if e.conn != nil {
+			e.conn.Close()
+			return
+		}
+		close(e.send)
+	})
+}
+
+// vanish: the owner of this endpoint is gone (killed process / dropped connection).
+func (e *c04End) vanish() {
+	if e.fired != nil {
+		atomic.StoreInt32(e.fired, 1)
+	}
+	atomic.StoreInt32(&e.peer.gone, 1)
+	e.brokenOnce.Do(func() { close(e.broken) })
+	if e.kill != nil {
+		e.kill()
+	}
+	e.closeOne() // the peer reads what was already sent, then io.EOF
+}
+
+func (e *c04End) consumed(p *types.Packet) {
+	if p.Type == types.PACKET_FIN {
+		atomic.StoreInt32(&e.finSeen, 1)
+	}
+	n := atomic.AddInt64(&e.recvd, 1)
+	if e.vanishAt >= 0 && n == e.vanishAt {
+		e.vanish()
+	}
+}
+
+func (e *c04End) logSent(p *types.Packet) {
+	if e.idx == 0 && p.Type == types.PACKET_STAT && p.Stat == nil {
+		e.walkOnce.Do(func() { close(e.walkDone) })
+	}
+	pr := e.pair
+	pr.mu.Lock()
+	pr.log = append(pr.log, c04Pkt{From: e.idx, Type: p.Type, ID: p.ID, Len: len(p.Data)})
+	n := len(pr.log)
+	if p.Type == types.PACKET_REQ {
+		pr.nreq++
+		if pr.reqWant > 0 && pr.nreq >= pr.reqWant {
+			pr.reqOnce.Do(func() { close(pr.reqReached) })
+		}
+	}
+	cb := pr.onPacket
+	pr.mu.Unlock()
+	if cb != nil {
+		cb(n)
+	}
+}
 
 func (e *c04End) brk() {
 	e.brokenOnce.Do(func() {
@@ -117,6 +205,9 @@ func (e *c04End) brk() {
 			atomic.StoreInt32(e.fired, 1)
 		}
 		close(e.broken)
+		if e.conn != nil {
+			e.conn.Close()
+		}
 	})
 }
 
@@ -165,6 +256,23 @@ func (e *c04End) SendMsg(m interface{}) (err error) {
 			return c04ErrBroken
 		}
 	}
+	if atomic.LoadInt32(&e.gone) != 0 && e.conn == nil {
+		// the peer has vanished: what is written now goes nowhere
+		if e.dropAfter {
+			return nil
+		}
+		return io.ErrClosedPipe
+	}
+	if e.inner != nil {
+		if err := e.inner.SendMsg(p); err != nil {
+			if ferr := e.failed(); ferr != nil {
+				return ferr
+			}
+			return err
+		}
+		e.logSent(p)
+		return nil
+	}
 	dt, err := p.MarshalVT()
 	if err != nil {
 		return err
@@ -181,21 +289,7 @@ func (e *c04End) SendMsg(m interface{}) (err error) {
 		return c04ErrBroken
 	case e.send <- dt:
 	}
-	pr := e.pair
-	pr.mu.Lock()
-	pr.log = append(pr.log, c04Pkt{From: e.idx, Type: p.Type, ID: p.ID, Len: len(p.Data)})
-	n := len(pr.log)
-	if p.Type == types.PACKET_REQ {
-		pr.nreq++
-		if pr.reqWant > 0 && pr.nreq >= pr.reqWant {
-			pr.reqOnce.Do(func() { close(pr.reqReached) })
-		}
-	}
-	cb := pr.onPacket
-	pr.mu.Unlock()
-	if cb != nil {
-		cb(n)
-	}
+	e.logSent(p)
 	if e.perturb != nil {
 		e.perturb()
 	}
@@ -236,6 +330,16 @@ func (e *c04End) RecvMsg(m interface{}) error {
 		case <-e.pair.reqReached:
 		}
 	}
+	if e.inner != nil {
+		if err := e.inner.RecvMsg(p); err != nil {
+			if ferr := e.failed(); ferr != nil {
+				return ferr
+			}
+			return err
+		}
+		e.consumed(p)
+		return nil
+	}
 	select {
 	case <-e.pair.down:
 		return c04ErrDown
@@ -248,6 +352,9 @@ func (e *c04End) RecvMsg(m interface{}) error {
 		err := p.UnmarshalVT(dt)
 		if err == nil && e.scribble && p.Type == types.PACKET_DATA && len(p.Data) > 0 {
 			e.prevData = p.Data
+		}
+		if err == nil {
+			e.consumed(p)
 		}
 		return err
 	}
@@ -378,6 +485,7 @@ const (
 	c04FOpen
 	c04FHash
 	c04FNotify
+	c04FVanish
 )
 
 type c04Notif struct {
@@ -401,6 +509,10 @@ type c04Cfg struct {
 	Hold bool
 	// SumGate: which files' digest computation (hash.Sum) is gated until their notification
 	SumGate func(path string) bool
+	// Transport 1: util.NewProtoStream over net.Pipe instead of the in-memory channel stream
+	Transport int
+	// OpenGate: source Opens are held until the sender's listing is complete (walker runs ahead)
+	OpenGate bool
 	// SrcDir != "": the source is that directory through fsutil.NewFS instead of the in-memory FS
 	SrcDir string
 	// Stall >= 0 (with Hold): the receiver-side callbacks of that entry block until the same moment
@@ -415,6 +527,7 @@ type c04Res struct {
 	TimedOut         bool
 	Quiesced         bool
 	HeldReleased     bool
+	FinS, FinR       bool // a FIN packet was delivered to Send's / Receive's RecvMsg
 	SumReleased      int
 	Fired            bool
 	Leaks            int
@@ -481,6 +594,10 @@ func c04Run(cfg c04Cfg) (res c04Res) {
 	ctxR, cancelR := context.WithCancel(context.Background())
 	defer cancelS()
 	defer cancelR()
+	if cfg.Transport == 1 {
+		pair.usePipe()
+	}
+	pair.E[0].kill, pair.E[1].kill = cancelS, cancelR
 	for _, e := range pair.E {
 		e.scribble = cfg.Scribble
 		e.perturb = cfg.Perturb
@@ -557,6 +674,16 @@ func c04Run(cfg c04Cfg) (res c04Res) {
 				}
 			}
 		}
+	case c04FVanish:
+		// a&1: 0 the receiver vanishes, 1 the sender vanishes; a&2: the survivor's later writes are
+		// dropped silently (else they fail); b: after the vanishing side has consumed b packets
+		v := pair.E[1-cfg.FA&1]
+		v.peer.dropAfter = cfg.FA&2 != 0
+		if cfg.FB == 0 {
+			v.vanish()
+		} else {
+			v.vanishAt = int64(cfg.FB)
+		}
 	case c04FWalk:
 		a := cfg.FA
 		mem.WalkHook = func(idx int, p string) error {
@@ -603,6 +730,19 @@ func c04Run(cfg c04Cfg) (res c04Res) {
 	case c04FNotify:
 		if fnode != nil {
 			notifyErrPath = fpath
+		}
+	}
+	if cfg.OpenGate {
+		prev := mem.OpenHook
+		mem.OpenHook = func(p string) error {
+			select {
+			case <-pair.E[0].walkDone:
+			case <-pair.down:
+			}
+			if prev != nil {
+				return prev(p)
+			}
+			return nil
 		}
 	}
 	if mem.ReadHook == nil && cfg.Perturb != nil {
@@ -671,7 +811,7 @@ func c04Run(cfg c04Cfg) (res c04Res) {
 				close(ch)
 			}
 			gmu.Unlock()
-			n := c04Notif{Kind: int(kind), Path: p}
+			n := c04Notif{Kind: int(kind), Path: p, DigestOK: fi == nil} // a deletion carries no digest
 			if fi != nil {
 				if st, ok := fi.Sys().(*types.Stat); ok {
 					want := hdrFor(st)
@@ -819,6 +959,8 @@ loop:
 	res.Ov = [4]int32{atomic.LoadInt32(&pair.E[0].ovSend), atomic.LoadInt32(&pair.E[0].ovRecv),
 		atomic.LoadInt32(&pair.E[1].ovSend), atomic.LoadInt32(&pair.E[1].ovRecv)}
 	res.Scribbled = atomic.LoadInt32(&pair.E[0].scribbled) + atomic.LoadInt32(&pair.E[1].scribbled)
+	res.FinS = atomic.LoadInt32(&pair.E[0].finSeen) != 0
+	res.FinR = atomic.LoadInt32(&pair.E[1].finSeen) != 0
 	nmu.Lock()
 	sort.SliceStable(res.Notifs, func(a, b int) bool { return res.Notifs[a].Path < res.Notifs[b].Path })
 	nmu.Unlock()
@@ -932,14 +1074,21 @@ var c04Stats = map[string]int{}
 //	fanout > 0: gated stream — REQ delivery is held back until that many requests were sent, then
 //	every DATA send blocks until tear-down.
 //
-// output: (send recv hung leaks false_success (differing paths) followup err_from_sender err_from_receiver fired bigfan)
+//	fault 8 (peer vanishes: clean end of stream): a&1 = 0 the receiver / 1 the sender is gone after it has
+//	consumed b packets (its operations fail, its context is cancelled; the survivor reads what was already
+//	sent and then io.EOF); a&2: the survivor's later writes are dropped silently (else they fail)
+//	optional 8th field transport: 1 = util.NewProtoStream over net.Pipe instead of the in-memory stream
+//
+// output: (send recv hung leaks false_success (differing paths) followup err_from_sender err_from_receiver fired bigfan
+//
+//	fin_seen_by_send fin_seen_by_receive)
 //
 //	send/recv: 0 nil, 1 error, 2 did not return within 10 s after tear-down; followup: 0 a clean
 //	sync into what was left behind converged, 1 it did not, 2 not run (hang)
 func run0401(in Sx) (out Sx) {
 	defer func() {
 		if r := recover(); r != nil {
-			out = L(N(9), N(9), N(0), N(0), N(0), L(), N(2), N(0), N(0), N(0), N(0), S(fmt.Sprint(r)))
+			out = L(N(9), N(9), N(0), N(0), N(0), L(), N(2), N(0), N(0), N(0), N(0), N(0), N(0), S(fmt.Sprint(r)))
 		}
 	}()
 	view := SxView(in.L[0])
@@ -961,6 +1110,9 @@ func run0401(in Sx) (out Sx) {
 	}
 	if len(f.L) > 4 {
 		cfg.Stall = f.L[4].Int() - 1
+	}
+	if len(in.L) > 7 {
+		cfg.Transport = in.L[7].Int()
 	}
 	if len(in.L) > 6 && in.L[6].IsTrue() {
 		cfg.SrcDir = filepath.Join(work, "src")
@@ -1008,7 +1160,8 @@ func run0401(in Sx) (out Sx) {
 		c04Stats["held_fault_released_on_quiescence"]++
 	}
 	return L(NI(res.Send), NI(res.Recv), Bool(res.Hung), NI(res.Leaks), Bool(falseSucc), L(ds...), NI(followup),
-		Bool(c04HasErr(res.Log, 0)), Bool(c04HasErr(res.Log, 1)), Bool(res.Fired), Bool(nreq > 132))
+		Bool(c04HasErr(res.Log, 0)), Bool(c04HasErr(res.Log, 1)), Bool(res.Fired), Bool(nreq > 132),
+		Bool(res.FinS), Bool(res.FinR))
 }
 
 // ---------------------------------------------------------------- generators
@@ -1103,7 +1256,7 @@ func c04CountEntries(ns []*MNode) int {
 	return c
 }
 
-var c04FaultNames = []string{"none", "stream-break", "cancel", "walk-error", "read-error", "open-error", "hasher-error", "notify-error"}
+var c04FaultNames = []string{"none", "stream-break", "cancel", "walk-error", "read-error", "open-error", "hasher-error", "notify-error", "peer-vanishes"}
 
 func c04Case(view, prior []*MNode, kind, a, b, fanout, capacity, chunk int) Sx {
 	return L(ViewSx(view), ViewSx(prior), L(NI(kind), NI(a), NI(b)), NI(fanout), NI(capacity), NI(chunk))
@@ -1112,6 +1265,11 @@ func c04Case(view, prior []*MNode, kind, a, b, fanout, capacity, chunk int) Sx {
 // c04CaseK: the same with the source kind (0 in-memory FS, 1 on-disk tree through fsutil.NewFS).
 func c04CaseK(view, prior []*MNode, kind, a, b, fanout, capacity, chunk, srckind int) Sx {
 	return L(ViewSx(view), ViewSx(prior), L(NI(kind), NI(a), NI(b)), NI(fanout), NI(capacity), NI(chunk), NI(srckind))
+}
+
+// c04CaseT: the same with the transport (0 in-memory stream, 1 util.NewProtoStream over net.Pipe).
+func c04CaseT(view, prior []*MNode, kind, a, b, fanout, capacity, chunk, srckind, transport int) Sx {
+	return L(ViewSx(view), ViewSx(prior), L(NI(kind), NI(a), NI(b)), NI(fanout), NI(capacity), NI(chunk), NI(srckind), NI(transport))
 }
 
 func genC04(g *Gen) {
@@ -1136,7 +1294,7 @@ func genC04(g *Gen) {
 		emit(c04Case(view, nil, kind, a, b, nf, r.Intn(3), 0), "fanout-"+c04FaultNames[kind])
 	}
 	// (b) small trees, every fault kind at every kind of position
-	n := g.Vol(500, 12000)
+	n := g.Vol(500, 6000)
 	for i := 0; i < n; i++ {
 		chunk := 1 + r.Intn(4)
 		sizes := []int{0, 1, 2, 3, 5, 8}
@@ -1146,9 +1304,11 @@ func genC04(g *Gen) {
 		}
 		view, prior := c04GenTree(r, 5, sizes)
 		ne := c04CountEntries(view)
-		kind := r.Intn(8)
+		kind := r.Intn(9)
 		a, b := 0, 0
 		switch kind {
+		case c04FVanish:
+			a, b = r.Intn(4), r.Intn(2*ne+6)
 		case c04FBreak:
 			a, b = r.Intn(2), r.Intn(3*ne+8)
 			if r.Chance(15) {
@@ -1172,12 +1332,17 @@ func genC04(g *Gen) {
 			srckind = 1
 			cls += "/disk-source"
 		}
-		emit(c04CaseK(view, prior, kind, a, b, 0, Pick(r, []int{0, 0, 1, 2, 8, 64}), chunk, srckind), cls)
+		transport := 0
+		if r.Chance(25) {
+			transport = 1
+			cls += "/protostream-pipe"
+		}
+		emit(c04CaseT(view, prior, kind, a, b, 0, Pick(r, []int{0, 0, 1, 2, 8, 64}), chunk, srckind, transport), cls)
 	}
 	// (b2) re-sync into an up-to-date (or nearly up-to-date) destination: no or few requests are
 	// outstanding when the fault strikes; every fault kind, cancellation of each of the contexts
 	// at every packet position; source mostly on disk (the real walker)
-	for i, nr := 0, g.Vol(120, 3000); i < nr; i++ {
+	for i, nr := 0, g.Vol(120, 2000); i < nr; i++ {
 		chunk := 1 + r.Intn(4)
 		view, _ := c04GenTree(r, 6, []int{0, 1, 2, 3, 5, 8})
 		if r.Chance(30) {
@@ -1201,8 +1366,15 @@ func genC04(g *Gen) {
 			kind, a, b = c04FBreak, r.Intn(2), r.Intn(2*ne+4)
 		case 2:
 			kind, a, b = c04FNone, 0, 0
-		case 3, 4, 5, 6:
+		case 3, 4, 5:
 			a = 0 // Send's own context
+		case 6, 7:
+			// the peer vanishes (killed / connection dropped) after it has consumed b packets:
+			// around the end of the listing, when the sender has nothing left to write
+			kind, a, b = c04FVanish, r.Intn(4), ne+1-r.Intn(3)
+			if b < 0 {
+				b = 0
+			}
 		}
 		srckind := 1
 		if r.Chance(25) {
@@ -1212,13 +1384,18 @@ func genC04(g *Gen) {
 		if srckind == 1 {
 			cls += "/disk-source"
 		}
-		emit(c04CaseK(view, prior, kind, a, b, 0, Pick(r, []int{0, 1, 8, 64}), chunk, srckind), cls)
+		transport := 0
+		if r.Chance(40) {
+			transport = 1
+			cls += "/protostream-pipe"
+		}
+		emit(c04CaseT(view, prior, kind, a, b, 0, Pick(r, []int{0, 1, 8, 64}), chunk, srckind, transport), cls)
 	}
 	// (c) long listings: the entries that follow a synchronously handled entry pile up in the
 	// receiver's walker channel (128) and diff channel (128) while the diff is held on that entry
 	// (listing sizes across the thresholds); the fault is released when everything is parked
 	thresholds := []int{0, 1, 100, 127, 128, 129, 200, 255, 256, 257, 258, 259, 260, 300, 400, 600}
-	for i, nl := 0, g.Vol(40, 600); i < nl; i++ {
+	for i, nl := 0, g.Vol(40, 500); i < nl; i++ {
 		after := Pick(r, thresholds)
 		if r.Chance(15) {
 			after = r.Intn(640)
@@ -1390,7 +1567,9 @@ func run0801(in Sx) (out Sx) {
 				return false
 			}
 		}
-		res := c04Run(c04Cfg{View: view, Dest: dest, Cap: capacity, Chunk: chunk, Scribble: true, Perturb: perturb, Stall: -1, SumGate: sumGate})
+		// every fourth schedule: the source Opens are held until the sender's listing is complete
+		// (the walker runs ahead of the data, bounded stream)
+		res := c04Run(c04Cfg{View: view, Dest: dest, Cap: capacity, Chunk: chunk, Scribble: true, Perturb: perturb, Stall: -1, SumGate: sumGate, OpenGate: s%4 == 2})
 		eq := !res.Hung && len(c04DestDiff(view, dest)) == 0
 		dg := ""
 		if !res.Hung {
@@ -1509,7 +1688,7 @@ func run0802(in Sx) (out Sx) {
 
 func genC08(g *Gen) {
 	r := g.Rng.Fork()
-	n := g.Vol(120, 600)
+	n := g.Vol(80, 600)
 	child := os.Getenv("C08_CHILD") != ""
 	if v := os.Getenv("C08_CASES"); v != "" {
 		fmt.Sscan(v, &n)
@@ -1517,7 +1696,7 @@ func genC08(g *Gen) {
 	if !child {
 		// supporting test outside the model: the same generator under the race detector (first, in
 		// its own process: a fatal "concurrent map writes" there is an output value, not a crash here)
-		in := L(NI(g.Vol(40, 600)), N(r.U64()%1000000))
+		in := L(NI(g.Vol(24, 600)), N(r.U64()%1000000))
 		out := run0802(in)
 		built := len(out.L) > 2 && out.L[0].IsTrue() && out.L[2].Int() > 0
 		if !built {
@@ -1528,6 +1707,17 @@ func genC08(g *Gen) {
 		g.EmitWith(0x0802, in, out, built, "race-detector-run(supporting, outside the model)")
 	}
 	nsched := g.Vol(8, 32)
+	// large trees: 1000-2000 small files, all needed; under the gated schedules far more entries are
+	// announced than any bound on concurrently open writers before the first DATA comes back
+	for i, nl := 0, g.Vol(2, 12); i < nl && !child; i++ {
+		nf := 1000 + r.Intn(1001)
+		var view []*MNode
+		for k := 0; k < nf; k++ {
+			view = append(view, c04File(fmt.Sprintf("f%05d", k), r.Intn(4), r.U64(), c04Mt+int64(k)))
+		}
+		in := L(ViewSx(view), ViewSx(nil), NI(g.Vol(3, 8)), N(r.U64()%1000000), NI(1+r.Intn(3)))
+		g.EmitWith(0x0801, in, run0801(in), true, "large-tree-opens-gated")
+	}
 	for i := 0; i < n; i++ {
 		var view, prior []*MNode
 		chunk := 1 + r.Intn(7)
@@ -1565,6 +1755,39 @@ func genC08(g *Gen) {
 			}
 		} else {
 			view, prior = c04GenTree(r, 7, []int{0, 1, 2, 3, 5, 8, 13, 40})
+		}
+		// the prior destination also holds what the source lacks: top-level directories with many
+		// entries (around the destination walker's channel capacity, 128) that the receiver has to
+		// remove while its destination walker may still be inside them, and a directory where the
+		// source has a regular file
+		if r.Chance(25) {
+			for k, nx := 0, 1+r.Intn(2); k < nx; k++ {
+				d := c04Dir(Pick(r, []string{"0-old", "b~old", "f0001~old", "zz-old"})+fmt.Sprint(k), c04Mt)
+				for j, nk := 0, Pick(r, []int{2, 60, 127, 128, 129, 131, 150, 200}); j < nk; j++ {
+					d.Kids = append(d.Kids, c04File(fmt.Sprintf("k%04d", j), r.Intn(3), r.U64(), c04Mt))
+				}
+				prior = append(prior, d)
+			}
+			if r.Chance(50) {
+				// a top-level regular file of the source that is a big directory in the prior destination
+				for _, n := range view {
+					if os.FileMode(n.Stat.Mode)&os.ModeType == 0 {
+						var rest []*MNode
+						for _, q := range prior {
+							if q.Name != n.Name {
+								rest = append(rest, q)
+							}
+						}
+						d := c04Dir(n.Name, c04Mt)
+						for j, nk := 0, Pick(r, []int{3, 129, 140, 200}); j < nk; j++ {
+							d.Kids = append(d.Kids, c04File(fmt.Sprintf("k%04d", j), r.Intn(3), r.U64(), c04Mt))
+						}
+						prior = append(rest, d)
+						break
+					}
+				}
+			}
+			cls += "+prior-extras"
 		}
 		in := L(ViewSx(view), ViewSx(prior), NI(nsched), N(r.U64()%1000000), NI(chunk))
 		out := run0801(in)
